@@ -41,6 +41,13 @@ type BTWorld struct {
 	ErrLog []string
 	// transport faults
 	SendFail  func(kind string, n int) bool // return true to fail the n-th Send of a stream
+	// LazySend: the transport keeps the message it was handed and serialises it only when the
+	// handler has returned (gRPC: "it is not safe to modify the message after calling SendMsg;
+	// tracing libraries and stats handlers may use the message lazily").
+	LazySend bool
+	// SendGate runs inside the n-th Send of a ReadRows stream after the message was taken: a
+	// consumer that does something else (e.g. a write) before it reads on (flow control).
+	SendGate func(n int)
 	SendYield bool
 	closed    bool
 	rows      []*yRows // every engine handle handed out (closed at Destroy)
@@ -287,6 +294,7 @@ type readStream struct {
 	baseStream
 	w    *BTWorld
 	msgs []*btpb.ReadRowsResponse
+	lazy []*btpb.ReadRowsResponse
 	// stamps: scheduler step at which each message was sent
 	steps []int
 }
@@ -298,14 +306,32 @@ func (s *readStream) Send(m *btpb.ReadRowsResponse) error {
 		return status.Error(codes.Unavailable, "simulated: client went away")
 	}
 	// gRPC serialises inside Send, then the transport may take its time.
-	c := &btpb.ReadRowsResponse{}
-	wire(m, c)
-	s.msgs = append(s.msgs, c)
+	if s.w.LazySend {
+		s.lazy = append(s.lazy, m)
+		s.msgs = append(s.msgs, nil)
+	} else {
+		c := &btpb.ReadRowsResponse{}
+		wire(m, c)
+		s.msgs = append(s.msgs, c)
+	}
 	if simS != nil {
 		s.steps = append(s.steps, simS.Steps)
 	}
 	hookYield("stream.Send")
+	if s.w.SendGate != nil {
+		s.w.SendGate(n)
+	}
 	return nil
+}
+
+// settle serialises the messages a lazy transport kept.
+func (s *readStream) settle() {
+	for i, m := range s.lazy {
+		c := &btpb.ReadRowsResponse{}
+		wire(m, c)
+		s.msgs[i] = c
+	}
+	s.lazy = nil
 }
 
 type mutateStream struct {
@@ -495,6 +521,7 @@ func (w *BTWorld) ReadRows(req *btpb.ReadRowsRequest) readResult {
 	wire(req, r2)
 	st := &readStream{w: w}
 	err := w.data().ReadRows(r2, st)
+	st.settle()
 	rows, bad := decodeChunks(st.msgs)
 	if err != nil && bad != nil {
 		bad = nil // a failed stream may end anywhere
